@@ -222,7 +222,19 @@ def generate(seed, tier):
     world = _world(rc)
     model = history.model_only(world)
     ops = []
-    for _ in range(rc.randint(4, 16)):
+    hammer = rc.random() < 0.12
+    for _ in range(rc.randint(4, 16) if not hammer else 14):
+        if hammer and len(ops) >= 2:
+            # the same refusal again and again (nothing that counts refusals may ever let one through)
+            tname = 'big' if isinstance(model.host.get('big'), list) else 'x'
+            how = ro.choice(['push', 'insert', 'set'])
+            prog = {'push': ['call', 'push', [['name', tname], ['num', '7']], gen.sugar(ro, 2)],
+                    'insert': ['call', 'insert', [['name', tname], ['num', '0'], ['num', '7']], 'plain'],
+                    'set': ['setitem', ['name', 'bigd'], ['str', 'hk%d' % len(ops)], ['num', '7']]}[how]
+            ops.append({'op': 'eval', 'prog': prog, 'style': gen.style(S['render']), 'kind': {'push': 'push', 'insert': 'insert', 'set': 'setitem'}[how]})
+            if model.run(prog)[0] == 'unspec':
+                break
+            continue
         if ro.random() < 0.07:
             # a table entry the reference semantics do not know (one that may be added some day): whatever it is, it must
             # not leave a container above the bound behind - called with boundary containers in several shapes
